@@ -12,8 +12,10 @@ import os, re, json
 from vlib import core
 
 PID = "C08"
-MC = ["usingDict", "cdictCopy", "cdictRef", "load", "loadRef", "refCDict", "refPrefix", "dds"]
-MD = ["usingDict", "ddict", "load", "refDDict", "refPrefix", "multi"]
+MC = ["usingDict", "cdictCopy", "cdictRef", "load", "loadRef", "refCDict", "refPrefix", "dds", "cdictRaw", "cdictFull", "loadRaw", "loadFull"]
+MD = ["usingDict", "ddict", "load", "refDDict", "refPrefix", "multi", "rawDDict", "loadRaw"]
+RAWC = ("refPrefix", "cdictRaw", "loadRaw")
+RAWD = ("refPrefix", "rawDDict", "loadRaw")
 GOLD = os.path.join(core.REPO, "tests", "golden-dictionaries", "http-dict-missing-symbols")
 
 
@@ -56,8 +58,9 @@ def gen_batch(rng, tier):
             n = min(n, 60000)
         mc = rng.choice(MC); md = rng.choice(MD)
         # a prefix is raw content: for a formatted dictionary it must be used as a prefix on both sides or on neither
-        if s != 0 and (mc == "refPrefix") != (md == "refPrefix"):
-            md = "refPrefix" if mc == "refPrefix" else rng.choice([m for m in MD if m != "refPrefix"])
+        # (the same holds for the explicit raw-content loaders)
+        if s != 0 and (mc in RAWC) != (md in RAWD):
+            md = rng.choice(RAWD) if mc in RAWC else rng.choice([m for m in MD if m not in RAWD])
         L.append("RT %d %s %d %s %d %s %d %d %d" % (s, mc, rng.choice([0, 1, 2, 3]), md, lvl,
                  rng.choice(["text", "mix", "records", "rand", "longrep", "zero"]), n, rng.randint(1, 9999), rng.choice([1, 1, 0])))
     for a, b in [(1, 2), (2, 3), (2, 0), (1, 0), (3, 5), (0, 1)]:
